@@ -138,7 +138,7 @@ Proof.
   induction t as [c m mt|tg mt|m mt ch IH] using tree_ind'; intros rel p Hwf.
   - simpl. destruct p; reflexivity.
   - simpl. destruct p; reflexivity.
-  - simpl in Hwf. apply andb_true_iff in Hwf as [Hnd Hwf].
+  - simpl in Hwf. apply andb_true_iff in Hwf as [Hnd Hwf]. apply andb_true_iff in Hnd as [Hnd Hnok].
     change (entries pre repro rel (Dir m mt ch))
       with (mkEntry (pre ++ rel) EDir m (hdr_time repro mt) ::
             flat_map (fun nc => entries pre repro (rel ++ [fst nc]) (snd nc)) ch).
@@ -151,7 +151,7 @@ Proof.
       assert (Hch : last_dir_mode pre (rel ++ n :: p)
                 (flat_map (fun nc => entries pre repro (rel ++ [fst nc]) (snd nc)) ch)
               = match find_child n ch with Some c => dir_mode_of (tree_get c p) | None => None end).
-      { clear m mt. induction ch as [|[n0 c0] l IHl]; [reflexivity|].
+      { clear m mt Hnok. induction ch as [|[n0 c0] l IHl]; [reflexivity|].
         inversion IH as [|? ? IH0 IHr]; subst. simpl in Hnd, Hwf |- *.
         apply andb_true_iff in Hnd as [Hn0 Hnd]. apply negb_true_iff in Hn0.
         apply andb_true_iff in Hwf as [Hw0 Hwf].
